@@ -14,6 +14,7 @@ TClose    == IsEvent("wclose")   /\ WClose(E.ret, E.f)
 TReadBack == IsEvent("readback") /\ WReadBack(E.openRet, E.valRet, E.delivered, E.eq, E.closeRet)
 TZck      == IsEvent("zck")      /\ WToolZck(E.status, E.f)
 TUnzck    == IsEvent("unzck")    /\ WToolUnzck(E.zckStatus, E.status, E.outEq)
+TUnzckF   == IsEvent("unzckf")   /\ WToolUnzckFaulty(E.status, E.outEq)
 TRun      == IsEvent("run")      /\ WRun(E)
 \* a run that was already reported as a violation: recorded (to keep run numbers) but not compared again
 TRunX     == IsEvent("runx")     /\ runs' = Append(runs, RunRec(E)) /\ UNCHANGED <<wlen, wok, wclosed>>
@@ -22,7 +23,7 @@ TMinMax   == IsEvent("minmax")   /\ WMinMax(E.a, E.lo, E.hi)
 TForget   == IsEvent("forget")   /\ runs' = <<>> /\ UNCHANGED <<wlen, wok, wclosed>>
 
 Init == WInit /\ l = 1
-Next == TStart \/ TWrite \/ TEndChunk \/ TOption \/ TClose \/ TReadBack \/ TZck \/ TUnzck \/ TRun \/ TRunX \/ TPair \/ TMinMax \/ TForget
+Next == TStart \/ TWrite \/ TEndChunk \/ TOption \/ TClose \/ TReadBack \/ TZck \/ TUnzck \/ TUnzckF \/ TRun \/ TRunX \/ TPair \/ TMinMax \/ TForget
 Spec == Init /\ [][Next]_tvars
 Accepted == /\ PrintT(<<"MATCHED", TLCGet("stats").diameter - 1, Len(TraceLog)>>)
             /\ TLCGet("stats").diameter - 1 = Len(TraceLog)
